@@ -370,6 +370,13 @@ def cli_runs(ctx, rng, mismatches, sigs, samples):
         opts = argv[len([a for a in argv[:len(nums)]]):]
         spec["argv"] = argv
         specs.append(spec)
+    # -n with N beyond int64 must be rejected (never wrapped into a negative n), with and without a start
+    for N in [(1 << 63), (1 << 63) + 5, (1 << 64) - 1, (1 << 64) - 16]:
+        for S in [None, 1000, 10 ** 6]:
+            for form in (str(N), "2^64-%d" % ((1 << 64) - N)):
+                nums = [(form, N)] + ([(str(S), S)] if S is not None else [])
+                argv = [e for e, _ in nums] + [rng.choice(["-n", "--nth-prime"])] + (["-q"] if rng.chance(1, 2) else [])
+                specs.append({"numbers": nums, "quiet": "-q" in argv, "argv": argv, "nth": True})
     import concurrent.futures
     def run1(spec):
         rc, out, err = ps.run([exe] + spec["argv"], timeout=20)
